@@ -4,6 +4,7 @@ mod fmt;
 mod gen;
 mod rng;
 mod server_suite;
+mod udp_suite;
 mod sexp;
 
 use std::collections::BTreeMap;
@@ -91,6 +92,7 @@ fn run_suite(suite: &str, seed: u64, thorough: bool, out: &str, shards: usize) {
                             "wire" => gen::gen_wire(seed, &tier, shard, shards, &mut emit),
                             "fd" => gen::gen_fd(seed, &tier, shard, shards, &mut emit),
                             "server" => gen::gen_server(seed, &tier, shard, shards, &mut emit),
+                            "udp" => gen::gen_udp(seed, &tier, shard, shards, &mut emit),
                             "select" => gen::gen_select(seed, &tier, shard, shards, &mut emit),
                             "listener" => gen::gen_listener(seed, &tier, shard, shards, &mut emit),
                             "cluster" => gen::gen_cluster(seed, &tier, shard, shards, &mut emit),
